@@ -185,6 +185,13 @@ add("F71", ["C16"], "C16.annotation-ambiguity|pipe|ArrayBegin", "same for a body
 # ---- WASM never frees boxed values (C12.wasm-release) ----------------------------------------------------------
 add("F72", ["C12"], "C12.wasm-release|host|usersum_release", "`type rec List = Nil | Cons(float, List)  fn dsp(){ let l = Cons(now, Cons(2.0, Nil))  head(l) }` on the WASM back end: the host's heap holds 2, 4, 6, … objects after 1, 2, 3, … samples (a scratch `eprintln!` of `state.heap.len()` in box_alloc_host; findings/repro/F72_*.mmm): wasmgen lowers ReleaseUserSum to `usersum_release(0, size, 0)` with placeholder arguments and usersum_release_host only logs. Not repaired: it needs the value's address and a type table on the WASM side")
 
+# ---- F76 / F77 (found by seeding agents as pristine oddities; rules written from the constructs) ------------------
+for _p in ("C09", "C10"):
+    fixed("F76", _p, "313668e", "C09.pattern-cover|arm|translate_staging::pattern_to_symbol|Record", "`let {a = x} = r` inside quoted code: the staging translation reduced a record pattern to the key of its first field (`fields.first()`), bound the whole record under that name and left `x` unbound; the compiler panicked with `value extfun x ! not found` (findings/repro/F76_*.mmm)")
+    fixed("F76", _p, "313668e", "C09.pattern-cover|arm|translate_staging::pattern_to_symbol|Tuple", "same reduction for a tuple pattern nested in a position the tuple translation did not handle")
+for _fn in ("print_lambda_expr", "print_record_expr", "print_macro_expansion"):
+    fixed("F77", "C14", "ff0d6b2", "C14.skipped-trivia|skip|%s|Comma|guarded" % _fn, "`{a = 1.0, /* c */ b = 2.0}`, `|x, /* c */ y| ..`, `m!(a, /* c */ b)`: the guarded `Comma if in_..` arm of %s swallowed the comma without reading its trivia; the comment was lost" % _fn)
+
 
 def main():
     extra = os.path.join(HERE, "tools", "findings_more.py")
